@@ -238,6 +238,28 @@ CLAIMS = {
         technique="Lean 4 proof (byte layout round trip, totality, determinant identity) + differential "
                   "correspondence and grammar recogniser",
         ref="DESIGN.md §6 C17"),
+    "C13": dict(
+        text="Lean 4 theorems over a model of the convert_chunks loop (reader and writer are the dataset I/O "
+             "layer of C03 over map-like stores, codecs may depend on the chunk): the loop visits EXACTLY the "
+             "cells of the destination's chunk grid, for every scale size and list of chunk sizes (both "
+             "directions, via the grid-test theorem of C03); MAIN: for every destination info with distinct "
+             "keys, every readable source, every value transform and every codec lossless on the transformed "
+             "arrays, the command succeeds, every visited destination chunk decodes to the transformed source "
+             "chunk and nothing else in the store changes; success implies every planned chunk was read and "
+             "written (no silent skip); a destination cell off the source's grid aborts the command; a source "
+             "scale listing the destination's chunk size accepts every visited key; raw codec lossless for "
+             "every item size; integer widening is the identity on every representable value (from C11). "
+             "compressed_segmentation losslessness is C02's theorem. Tie/oracle: every pairing of source kind "
+             "(files, shards, HTTP plain/sharded over a loopback server) x (--copy-info / pre-made info) each "
+             "run, then random pairings, in-process (write order compared with the Lean plan) and as a "
+             "subprocess of the console module; destination decoded by a fresh accessor and by specification "
+             "readers; source tree hashed before/after.",
+        note="Trusted: Lean kernel; standard axioms; hand-written loop model (tie = recorded write order vs "
+             "plan on every in-process case); stores assumed map-like (C12/C05 theorems); in-place conversion "
+             "(source = destination) not exercised; jpeg outside the property.",
+        technique="Lean 4 proof (loop invariant over the planned key list + grid exactness) + differential "
+                  "correspondence on whole-dataset conversions",
+        ref="DESIGN.md §6 C13"),
     "C14": dict(
         text="Lean 4 theorems over a model of the HTTP readers' decision logic (the requests library and the "
              "server are a parameter `Reply`): every 4xx/5xx status and every transport failure is a "
